@@ -317,7 +317,9 @@ def rule_deny(ctx, R, roles, li, rule="LOCK-deny"):
                     types = cg.expr_types(f, c.func.value)
                     is_q = any(t.startswith("ext:") and "Queue" in t for t in types)
                     recv = src(c.func.value)
-                    in_store = f.cls is not None and f.cls.name == "_AdbPacketStore" and "_dict" in recv and not (cs and cs.callees)
+                    from .util import store_level
+                    lv = store_level(ctx, f, n, c.func.value) if f.cls is not None and f.cls.name == "_AdbPacketStore" else None
+                    in_store = f.cls is not None and f.cls.name == "_AdbPacketStore" and not (cs and cs.callees) and (lv == 2 or (lv is None and "_dict" in recv))
                     if is_q or in_store:
                         R.fail(rule, sub, "blocking queue operation `%s` %s %s (only the _nowait variants may be used)" % (norm_stmt(c), how, lock[1]), f.loc(c))
                 if cs is not None and cs.ext in ("time.sleep", "asyncio.sleep"):
